@@ -317,9 +317,189 @@ let main_c15 file full =
     done with End_of_file -> ());
   Printf.printf "DONE ok=%d bad=%d accepted=%d\n" !nok !nbad !nacc
 
+
+(* ---------- crash images: C01 C07 (and the WAL recovery model) ---------- *)
+let raw_of_hex s = String.init (String.length s / 2) (fun i -> Char.chr (hexv s.[2*i] * 16 + hexv s.[2*i+1]))
+
+(* per-block digests, found again by physical identity of the byte list *)
+let blk_tbl : (int, (byte0 list * string)) Hashtbl.t = Hashtbl.create 4096
+let weak_key (l : byte0 list) = Hashtbl.hash l
+let register_block l hexs =
+  Hashtbl.add blk_tbl (weak_key l) (l, Digest.to_hex (Digest.string (raw_of_hex hexs)))
+let block_digest l =
+  match List.find_opt (fun (l', _) -> l' == l) (Hashtbl.find_all blk_tbl (weak_key l)) with
+  | Some (_, d) -> d
+  | None ->
+    let b = Bytes.create (List.length l) in
+    List.iteri (fun i x -> Bytes.set b i (Char.chr (int_of_n (Extracted.to_N x)))) l;
+    Digest.to_hex (Digest.bytes b)
+
+let logical_digest (d : disk) =
+  let l = List.map (fun (a, b) -> (int_of_n a, b)) (fs_part d) in
+  let l = List.sort (fun (a, _) (b, _) -> compare a b) l in
+  let buf = Buffer.create 4096 in
+  List.iter (fun (a, b) -> Buffer.add_string buf (Printf.sprintf "%d:%s;" a (block_digest b))) l;
+  Digest.to_hex (Digest.string (Buffer.contents buf))
+
+type ev = EvB | EvW of n * byte0 list
+
+let main_crash file =
+  let ic = open_in file in
+  let params = ref { p_name_max = N0; p_maxfilesize = N0; p_wtmax = N0; p_ninode = N0 } in
+  let sz = ref N0 in
+  let base = ref empty_disk in
+  let states = ref [||] in       (* S_0 .. S_N *)
+  let st_list = ref [] in
+  let cur = ref (init_afs true) in
+  let ops = ref [] in            (* (id, s, e, dur) in order *)
+  let evs = ref [] in
+  let call = ref None and oreply = ref None in
+  let in_g = ref false in
+  let g_hdr = ref ("", "", "", "", 0, 0) in
+  let g_steps = ref [] in
+  let nimg = ref 0 and nok = ref 0 and nbad = ref 0 in
+  let evarr = ref [||] in
+  (* incremental image at the last barrier *)
+  let img_b = ref empty_disk and img_b_idx = ref 0 in
+  let kdist = Hashtbl.create 16 in
+  let main_verfs = ref [] and g_verfs = ref [] in
+  let finish_main () =
+    states := Array.of_list (List.rev !st_list);
+    evarr := Array.of_list (List.rev !evs);
+    img_b := !base; img_b_idx := 0 in
+  let judge_image () =
+    let (ns, pat, status, dg, fb, fi) = !g_hdr in
+    let n = int_of_string ns in
+    incr nimg;
+    let ev = !evarr in
+    (* advance the barrier image *)
+    let last = ref !img_b_idx in
+    for i = !img_b_idx to n - 1 do
+      (match ev.(i) with EvB -> last := i + 1 | _ -> ())
+    done;
+    for i = !img_b_idx to !last - 1 do
+      (match ev.(i) with EvW (a, b) -> img_b := disk_set !img_b a b | EvB -> ())
+    done;
+    img_b_idx := !last;
+    (* apply the un-barriered window according to the pattern *)
+    let drop k = match pat.[0] with
+      | '-' -> false
+      | 's' -> k = int_of_string (String.sub pat 1 (String.length pat - 1))
+      | 'm' -> let m = Int64.of_string ("0x" ^ String.sub pat 1 (String.length pat - 1)) in
+        k < 63 && Int64.logand m (Int64.shift_left 1L k) <> 0L
+      | _ -> false in
+    let img = ref !img_b in
+    let k = ref 0 in
+    for i = !last to n - 1 do
+      (match ev.(i) with
+       | EvW (a, b) -> (if not (drop !k) then img := disk_set !img a b); incr k
+       | EvB -> ())
+    done;
+    let bad = ref [] in
+    let add s = bad := s :: !bad in
+    (* the acknowledgement window *)
+    let lo = ref 0 and hi = ref 0 in
+    List.iteri (fun idx (_, s, e, dur) ->
+        if s <= n && (s < n || true) then (if s <= n then hi := max !hi (if s < n || e = s then idx + 1 else idx + 1));
+        if e <= n && dur then lo := idx + 1) (List.rev !ops);
+    (* an operation that had not started at the cut cannot be visible *)
+    let hi' = ref 0 in
+    List.iteri (fun idx (_, s, _, _) -> if s < n then hi' := idx + 1) (List.rev !ops);
+    ignore hi;
+    let hiv = max !hi' !lo in
+    if status <> "ok" then add "real-recovery-panicked";
+    (* a client must be able to tell that unstable data may be gone: the recovered instance's write
+       verifier differs from the one of the instance that crashed *)
+    if !main_verfs <> [] && List.exists (fun v -> List.mem v !main_verfs) !g_verfs then add "write-verifier-unchanged-across-crash";
+    if List.length (List.sort_uniq compare !main_verfs) > 1 then add "write-verifier-changed-within-one-instance";
+    (match recover_log !img with
+     | None -> add "model-recover-refuses-header"
+     | Some logical ->
+       if status = "ok" && logical_digest logical <> dg then add "recovered-disk-differs-from-model-recovery";
+       let ar = abs_disk !params.p_name_max !params.p_maxfilesize !sz false logical in
+       if ar.r_errs <> [] then add ("wf=" ^ String.concat "," (List.map show_err (take 4 ar.r_errs)));
+       let found = ref (-1) in
+       let k = ref hiv in
+       while !found < 0 && !k >= !lo do
+         if cmp_state !states.(!k) ar = [] then found := !k;
+         decr k
+       done;
+       if !found < 0 then begin
+         (* diagnose: is it a prefix outside the window, or no prefix at all? *)
+         let any = ref (-1) in
+         Array.iteri (fun i s -> if !any < 0 && cmp_state s ar = [] then any := i) !states;
+         let mm = cmp_state !states.(hiv) ar in
+         add (Printf.sprintf "no-prefix-in-window[%d,%d] matches-prefix=%d vs-last:%s" !lo hiv !any
+                (String.concat "," (List.map show_mm (take 4 mm))))
+       end else begin
+         Hashtbl.replace kdist (hiv - !found) (1 + (try Hashtbl.find kdist (hiv - !found) with Not_found -> 0));
+         if status = "ok" then begin
+           let l = mk_layout !sz in
+           let disk_fb = int_of_n !sz - int_of_n l.l_dstart - int_of_n ar.r_used_blocks in
+           let disk_fi = int_of_n l.l_ninode - int_of_n ar.r_used_inodes in
+           if disk_fb <> fb || disk_fi <> fi then add (Printf.sprintf "alloc-after-recovery=mem(%d,%d)/disk(%d,%d)" fb fi disk_fb disk_fi);
+           (* the suffix served by the recovered server *)
+           let s = ref !states.(!found) in
+           List.iter (fun (nm, c, o) ->
+               match c, o with
+               | Some c, Some o ->
+                 let (s', r) = step !params !s c (hint_of c o) in
+                 s := s';
+                 if not (agree s' r o) then add (Printf.sprintf "suffix-%s:expected=%s observed_code=%d" nm (show_reply r) (int_of_n (code_of o)))
+               | _ -> add ("suffix-" ^ nm ^ ":panic")) (List.rev !g_steps)
+         end
+       end);
+    if !bad = [] then (incr nok; Printf.printf "G %s %s OK\n" ns pat)
+    else (incr nbad; Printf.printf "G %s %s BAD window=[%d,%d] %s\n" ns pat !lo hiv (String.concat " " (List.rev !bad))) in
+  let cname = ref "" in
+  (try
+     while true do
+       let line = input_line ic in
+       let toks = split_on ' ' line in
+       match toks with
+       | "I" :: s :: un :: nm :: mfs :: wt :: ni :: _ ->
+         sz := n_of_string s;
+         params := { p_name_max = n_of_string nm; p_maxfilesize = n_of_string mfs; p_wtmax = n_of_string wt; p_ninode = n_of_string ni };
+         cur := init_afs (un = "1"); st_list := [!cur]
+       | "B0" :: a :: d :: _ -> let b = bytes_of_hex d in register_block b d; base := disk_set !base (n_of_string a) b
+       | "U" :: b :: _ -> cur := set_unstable !cur (b = "1")
+       | "C" :: rest -> (match rest with _ :: nm :: _ -> cname := nm | _ -> ()); call := Some (parse_call rest)
+       | "R" :: rest ->
+         let (o, v) = parse_reply rest in
+         oreply := Some o;
+         (match v with
+          | Some v -> if !in_g then g_verfs := v :: !g_verfs else main_verfs := v :: !main_verfs
+          | None -> ())
+       | "X" :: _ -> if !in_g then g_steps := (!cname, None, None) :: !g_steps
+       | "E" :: _ ->
+         (match !call, !oreply with
+          | Some c, Some o ->
+            if !in_g then g_steps := (!cname, Some c, Some o) :: !g_steps
+            else begin
+              let (s', _) = step !params !cur c (hint_of c o) in
+              cur := s'
+            end
+          | _ -> ());
+         call := None; oreply := None
+       | "T" :: id :: s :: e :: dur :: _ ->
+         ops := (id, int_of_string s, int_of_string e, dur = "1") :: !ops;
+         st_list := !cur :: !st_list
+       | "V" :: "b" :: _ -> evs := EvB :: !evs
+       | "V" :: "w" :: a :: d :: _ -> let b = bytes_of_hex d in register_block b d; evs := EvW (n_of_string a, b) :: !evs
+       | "G" :: n :: pat :: status :: dg :: fb :: fi :: _ ->
+         if Array.length !states = 0 then finish_main ();
+         in_g := true; g_steps := []; g_verfs := []; g_hdr := (n, pat, status, dg, int_of_string fb, int_of_string fi)
+       | "GE" :: _ -> judge_image (); in_g := false
+       | _ -> ()
+     done
+   with End_of_file -> ());
+  let kd = Hashtbl.fold (fun k v acc -> Printf.sprintf "%d:%d" k v :: acc) kdist [] in
+  Printf.printf "DONE images=%d ok=%d bad=%d ops=%d events=%d lost_suffix_hist=%s\n" !nimg !nok !nbad (List.length !ops) (Array.length !evarr) (String.concat "," kd)
+
 let () =
   match Array.to_list Sys.argv with
   | _ :: "c15" :: file :: rest -> main_c15 file (rest = ["full"])
+  | _ :: "crash" :: file :: _ -> main_crash file
   | _ :: "seq" :: file :: rest -> main_seq file (rest <> ["noabs"])
   | _ :: file :: rest -> main_seq file (rest <> ["noabs"])
   | _ -> prerr_endline "usage: drv <mode> <file>"; exit 2
